@@ -6,6 +6,7 @@
 import DDProofs.Ite
 import DDProofs.ApplyProofs
 import DDProps.Tables
+import DDProofs.UsedObs
 namespace DD
 
 /-- C01 (ITE): on any manager satisfying the invariant, with whatever computed table,
@@ -128,5 +129,95 @@ functions (C02) -/
 theorem C01_eq_spec (m : Mgr) (hI : Inv m) (u v : Int) (hu : m.tbl.Mem u) (hv : m.tbl.Mem v) :
     (u = v ↔ ∀ a, den m.tbl u a = den m.tbl v a) :=
   (canonical m.tbl hI.wf u v hu hv).symm
+
+end DD
+
+/-! ### non-vacuity on a USED manager
+
+`usedM` (DDProofs.UsedExample): four variables declared in the order c, a, d, b (levels 0..3),
+thirteen nodes, reached by a guarded history, node 4 = `a ∧ b` held once, node 13 =
+`ite(c ≡ d, a ∧ b, ¬b)` held twice, node 14 = `a ∨ d` garbage, a warm computed table.  Every
+hypothesis comes from the reachability theorem (`usedM_good`); the operands are complemented,
+have different supports (all four variables / {a, d} / {a, b}), and every conclusion that can be
+evaluated is evaluated by the kernel on the sixteen assignments (`tt4`: rows in the order
+c a d b). -/
+namespace DD
+
+/-- `apply('->', ¬f, a ∨ d)` (TLA+ and Promela spellings alike): the theorem instantiated -/
+example : ∃ r m', apply "=>" (-13) (some 14) none usedM = (.ok r, m') ∧ Inv m' ∧
+    Ext usedM.tbl m'.tbl ∧ m'.tbl.Mem r ∧ Frame usedM m' ∧
+    ∀ a, den m'.tbl r a = (!den usedM.tbl (-13) a || den usedM.tbl 14 a) :=
+  C01_apply_binary usedM usedM_good.inv usedM_good.off "=>" .implies (by decide) (by decide)
+    (by decide) (by decide) (by decide) (-13) 14 (usedM_mem (by decide)) (usedM_mem (by decide))
+
+/-- … and evaluated: three NEW nodes are built (15, 16, 17), the answer is 17 = `f ∨ a ∨ d` and its table is
+row by row the implication of the operands' tables; same for `xor` of two complemented operands
+of different supports (answer −15 in that manager: the complement edge is on the result) and for `\/` whose
+answer is an EXISTING node (`¬(a ∧ b) ∨ (a ∨ d)` = TRUE) -/
+example :
+    (apply "=>" (-13) (some 14) none usedM).1 = .ok 17 ∧
+    (apply "=>" (-13) (some 14) none usedM).2.tbl.succ.keys.length = 16 ∧
+    tt4 (apply "=>" (-13) (some 14) none usedM).2.tbl 17 =
+      List.zipWith (fun x y => !x || y) (tt4 usedM.tbl (-13)) (tt4 usedM.tbl 14) ∧
+    tt4 (apply "=>" (-13) (some 14) none usedM).2.tbl 17 =
+      [false, false, true, true, true, true, true, true,
+       true, false, true, true, true, true, true, true] ∧
+    (∃ r, (apply "^" (-4) (some (-14)) none usedM).1 = .ok r ∧
+      tt4 (apply "^" (-4) (some (-14)) none usedM).2.tbl r =
+        List.zipWith (fun x y => x != y) (tt4 usedM.tbl (-4)) (tt4 usedM.tbl (-14))) ∧
+    (apply "\\/" (-4) (some 14) none usedM).1 = .ok 1 := by
+  refine ⟨by decide +kernel, by decide +kernel, by decide +kernel, by decide +kernel,
+    ⟨-15, by decide +kernel, by decide +kernel⟩, by decide +kernel⟩
+
+/-- `_ite(¬(c ≡ d) , ¬f, a ∧ b)` with a complemented condition and a complemented branch, every
+outcome (`C01_ite`), the total form and the public `ite` -/
+example : IteOutcome usedM (-7) (-13) 4 (iteRaw (-7) (-13) 4 usedM) ∧
+    (∃ r m', iteRaw (-7) (-13) 4 usedM = (.ok r, m') ∧ ItePost usedM (-7) (-13) 4 r m') ∧
+    (∃ r m', ite (-7) (-13) 4 usedM = (.ok r, m') ∧ ItePost usedM (-7) (-13) 4 r m') :=
+  ⟨C01_ite usedM usedM_good.inv _ _ _ (usedM_mem (by decide)) (usedM_mem (by decide))
+      (usedM_mem (by decide)),
+   C01_ite_total usedM usedM_good.inv _ _ _ (usedM_mem (by decide)) (usedM_mem (by decide))
+      (usedM_mem (by decide)) (Or.inl usedM_good.ctx),
+   C01_public_ite usedM usedM_good.inv usedM_good.off _ _ _ (usedM_mem (by decide))
+      (usedM_mem (by decide)) (usedM_mem (by decide))⟩
+
+/-- evaluated: the public call and the recursion agree, the table is the if-then-else of the
+three tables -/
+example : ∃ r, (ite (-7) (-13) 4 usedM).1 = .ok r ∧ (iteRaw (-7) (-13) 4 usedM).1 = .ok r ∧
+    tt4 (ite (-7) (-13) 4 usedM).2.tbl r =
+      (List.zip (tt4 usedM.tbl (-7)) (List.zip (tt4 usedM.tbl (-13)) (tt4 usedM.tbl 4))).map
+        (fun x => if x.1 then x.2.1 else x.2.2) :=
+  ⟨19, by decide +kernel, by decide +kernel, by decide +kernel⟩
+
+/-- `apply('ite', ...)`, negation in a non-default spelling, `find_or_add` above two existing
+nodes (level 0 = `c`; `¬(a ∧ b)` and `a ∨ d` start at level 1), `<=` and `==` between held
+functions -/
+example :
+    (∃ r m', apply "ite" (-7) (some (-13)) (some 4) usedM = (.ok r, m') ∧ Inv m' ∧
+      Ext usedM.tbl m'.tbl ∧ m'.tbl.Mem r ∧ Frame usedM m' ∧
+      ∀ a, den m'.tbl r a =
+        if den usedM.tbl (-7) a then den usedM.tbl (-13) a else den usedM.tbl 4 a) ∧
+    (apply "!" (-13) none none usedM = (.ok 13, usedM)) ∧
+    (∃ r m', findOrAddCore 0 (-4) 14 usedM = (.ok r, m') ∧ FoaPost usedM 0 (-4) 14 r m') ∧
+    (∃ r m', apply "or" 14 (some (-4)) none usedM = (.ok r, m') ∧ Inv m' ∧
+      (r = 1 ↔ ∀ a, den usedM.tbl 4 a = true → den usedM.tbl 14 a = true)) ∧
+    ((13 : Int) = -13 ↔ ∀ a, den usedM.tbl 13 a = den usedM.tbl (-13) a) :=
+  ⟨C01_apply_ite usedM usedM_good.inv usedM_good.off "ite" (by decide) (by decide) _ _ _
+      (usedM_mem (by decide)) (usedM_mem (by decide)) (usedM_mem (by decide)),
+   (C01_apply_not usedM usedM_good.inv "!" (by decide) (by decide) (-13) (usedM_mem (by decide))).1,
+   C01_find_or_add usedM usedM_good.inv 0 (-4) 14 (by decide +kernel) (usedM_mem (by decide))
+      (usedM_mem (by decide)) (by decide +kernel) (by decide +kernel),
+   C01_le_spec usedM usedM_good.inv usedM_good.off 4 14 (usedM_mem (by decide))
+      (usedM_mem (by decide)),
+   C01_eq_spec usedM usedM_good.inv 13 (-13) (usedM_mem (by decide)) (usedM_mem (by decide))⟩
+
+/-- evaluated: `a ∧ b ≤ a ∨ d` holds (answer 1), `f ≤ a ∧ b` does not; `find_or_add` builds the
+node 15 = `ite(c, a ∨ d, ¬(a ∧ b))` -/
+example : (apply "or" 14 (some (-4)) none usedM).1 = .ok 1 ∧
+    (apply "or" 4 (some (-13)) none usedM).1 ≠ .ok 1 ∧
+    (findOrAddCore 0 (-4) 14 usedM).1 = .ok 15 ∧
+    tt4 (findOrAddCore 0 (-4) 14 usedM).2.tbl 15 =
+      (tt4 usedM.tbl (-4)).take 8 ++ (tt4 usedM.tbl 14).drop 8 := by
+  refine ⟨by decide +kernel, by decide +kernel, by decide +kernel, by decide +kernel⟩
 
 end DD
